@@ -35,11 +35,18 @@ def obj_prefixes(sc, cname, prefix=()):
     for f in all_fields(sc, cname):
         if f["kind"] == "obj":
             out += obj_prefixes(sc, f["cls"], tuple(prefix) + (f["name"],))
+        elif f["kind"] == "olist":
+            # a list of objects: its elements are composites of their own (the list itself is not numbered)
+            for i in range(f["n"]):
+                out += obj_prefixes(sc, f["cls"], tuple(prefix) + (f["name"], i))
     return out
 
 
 def class_at_path(sc, cname, path):
+    """path elements: attribute names; an int is the index into the list of objects named just before it"""
     for n in path:
+        if isinstance(n, int):
+            continue
         cname = next(f for f in all_fields(sc, cname) if f["name"] == n)["cls"]
     return cname
 
@@ -83,6 +90,9 @@ def leaves_of(sc, cname, prefix=()):
             out.append((p, f))
         elif f["kind"] == "obj":
             out += leaves_of(sc, f["cls"], p)
+        elif f["kind"] == "olist":
+            for i in range(f["n"]):
+                out += leaves_of(sc, f["cls"], p + (i,))
     return out
 
 
@@ -100,6 +110,8 @@ class Lits(object):
         self.prefix = ()
 
     def reflected(self, l, r):
+        if any(isinstance(x, int) for x in list(l[1]) + list(r[1])):
+            return False        # a field reached through a list element is a plain expression object, not a field facade
         fl, fr = self.fields[self.fid(l)], self.fields[self.fid(r)]
         fam = lambda f: "enum" if f["kind"] == "enum" else ("int" if f["sg"] else "bit")
         return fam(fl) == fam(fr) and not fl["rand"] and fr["rand"]
@@ -129,8 +141,17 @@ class Lits(object):
             return "(EBin %s %s %s)" % (OPCOQ[op], self.expr(l), self.expr(r))
         if k == "not":
             return "(ENot %s)" % self.expr(e[1])
+        if k == "itf":
+            # field e[1] of the element a foreach over a list of objects stands at: the leaf of element i
+            lp, iv = self.cur_foreach
+            return "(elem_at %s %s 0)" % (self.olist_ids(lp, e[1]), iv)
+        if k == "idxvar":
+            return "(idx_lit %s)" % self.cur_foreach[1]
         if k == "dynref":
             return "(dyn_ref %s)" % self.dyn_block(e[1], e[2])
+        if k == "dynidx":
+            # root.<list>[root.<sel>].<block>() : the element is chosen by the selector's value at the time of the call
+            return "(dyn_ref %s)" % self.dyn_block(list(e[1]) + [self.sel_value(e[2])], e[3])
         if k in ("inrl", "notinrl"):
             # a rangelist object of the root: its content at the time of the call, in the order the object holds it
             items = []
@@ -163,12 +184,47 @@ class Lits(object):
                 self.prefix = old
         return self.stmt_list(l)
 
+    def olist_ids(self, lpath, fpath):
+        """leaf ids of field fpath of every element of the list of objects at lpath (relative to the current object)"""
+        full = self.prefix + tuple(lpath)
+        cname = self.root_cls
+        f = None
+        for n in full:
+            if isinstance(n, int):
+                continue
+            f = next(x for x in all_fields(self.sc, cname) if x["name"] == n)
+            cname = f["cls"]
+        return clist(["%d%%nat" % self.ids[full + (i,) + tuple(fpath)] for i in range(f["n"])])
+
+    def sel_value(self, selpath):
+        return int(self.before_by_path[self.prefix + tuple(selpath)])
+
     def stmt_list(self, l):
-        """a Coq expression of type list stmt; a dynamic-constraint reference used as a statement expands in place (Rand/Dyn.v)"""
-        if not any(s[0] == "dyn" for s in l):
+        """a Coq expression of type list stmt; a dynamic-constraint reference used as a statement expands in place (Rand/Dyn.v),
+        a foreach over a list of objects is expanded by Rand/Unroll.v"""
+        if not any(s[0] in ("dyn", "dynidx", "foreach") for s in l):
             return clist([self.stmt(s) for s in l])
         parts, run, seen = [], [], set()
         for s in l:
+            if s[0] == "foreach":
+                if run:
+                    parts.append(clist(run))
+                    run = []
+                depth = getattr(self, "fe_depth", 0)
+                iv = "i%d" % depth
+                old_cur, self.cur_foreach, self.fe_depth = getattr(self, "cur_foreach", None), (s[1], iv), depth + 1
+                try:
+                    first = next(p for p, _ in leaves_of(self.sc, class_at_path(self.sc, self.root_cls, self.prefix + tuple(s[1]))))
+                    parts.append("(foreach_inst %s (fun %s _it%d : nat => %s))" % (self.olist_ids(s[1], first), iv, depth, self.stmt_list(s[2])))
+                finally:
+                    self.cur_foreach, self.fe_depth = old_cur, depth
+                continue
+            if s[0] == "dynidx":
+                s = ["dyn", list(s[1]) + [self.sel_value(s[2])], s[3]]
+            if s[0] == "dyn" and any(isinstance(x, int) for x in s[1]):
+                # a reference through a list element (ExprIndexedDynRefModel) stays one Boolean term even as a statement of its own
+                run.append("(SExpr (dyn_ref %s))" % self.dyn_block(s[1], s[2]))
+                continue
             if s[0] == "dyn":
                 if run:
                     parts.append(clist(run))
@@ -189,10 +245,8 @@ class Lits(object):
 
     def dyn_block(self, path, name):
         """the expressions of dynamic block `name` of the object at `path` (relative to the current object), over that object's leaves"""
-        cname = self.root_cls
         full = self.prefix + tuple(path)
-        for n in full:
-            cname = next(f for f in all_fields(self.sc, cname) if f["name"] == n)["cls"]
+        cname = class_at_path(self.sc, self.root_cls, full)
         b = next(b for b in all_blocks(self.sc, cname) if b["name"] == name and b.get("dynamic"))
         old, self.prefix = self.prefix, full
         try:
@@ -256,6 +310,12 @@ class Lits(object):
                 kids.append("(WLeaf %s %s %d%%nat)" % (cbool(bool(f.get("rand"))), cbool(mode), self.ids[p]))
             elif f["kind"] == "obj":
                 kids.append(self.world(f["cls"], p, bool(f.get("rand")), counter))
+            elif f["kind"] == "olist":
+                # FieldArrayModel is a composite (no callbacks, no blocks of its own); an appended element takes the list's
+                # declared-random attribute (field_array_model.py append)
+                elems = [self.world(f["cls"], p + (i,), bool(f.get("rand")), counter) for i in range(f["n"])]
+                self.n_olist = getattr(self, "n_olist", 0) + 1
+                kids.append("(WObj %s %s %d%%nat [] %s)" % (cbool(bool(f.get("rand"))), cbool(bool(f.get("rand"))), 2000 + self.n_olist, clist(elems)))
         blocks = []
         for b in all_blocks(self.sc, cname):
             if b.get("dynamic"):
@@ -325,6 +385,7 @@ class Gen(object):
 
     def __init__(self, rnd, small=True, tree=False, hist=False, ninst=1, soft_bias=False, free=False, rls=False):
         self.hooks = False        # pre_randomize callbacks that assign fields; classes deriving from a decorated base
+        self.olists = False       # lists of objects (elements are composites with fields, blocks and callbacks of their own)
         self.free = free          # free-standing vsc.randomize(...) / vsc.randomize_with(...) over some leaves
         self.rls = rls            # rangelist objects of the root, edited between calls
         self.rl_names = []
@@ -378,6 +439,21 @@ class Gen(object):
         self.classes.append(c)
         c["fields"] = self.scalar_fields(rnd.choice([1, 2, 2, 3, 3, 4, 5]) if depth == 0 and not self.tree
                                          else rnd.choice([1, 1, 2, 3]))
+        if self.olists and depth == 0:
+            # one or two lists of 2-3 objects of a small element class
+            elem = {"name": "K%d" % len(self.classes), "fields": [], "blocks": [], "pre_randomize": [], "post_randomize": []}
+            self.classes.append(elem)
+            for _ in range(rnd.randint(1, 2)):
+                w = rnd.choice([1, 2, 2])
+                elem["fields"].append({"name": "f%d" % self.nfield, "kind": "scalar", "w": w, "sg": rnd.random() < 0.3, "rand": rnd.random() < 0.85})
+                self.nfield += 1
+            for _ in range(rnd.choice([1, 1, 2])):
+                n = rnd.randint(2, 3)
+                is_rand = rnd.random() < 0.8
+                c["fields"].append({"name": "l%d" % self.nfield, "kind": "olist", "cls": elem["name"], "n": n, "rand": is_rand})
+                self.nfield += 1
+                if is_rand:
+                    self.budget -= n * sum(f["w"] for f in elem["fields"] if f["rand"])
         if self.tree and depth < 2:
             for k in range(rnd.choice([0, 1, 1, 2]) if depth == 0 else rnd.choice([0, 0, 1])):
                 sub = self.gen_class(depth + 1)
@@ -416,6 +492,9 @@ class Gen(object):
             nb = rnd.choice([1, 1, 2])
             c["blocks"] = [{"name": "c%d" % i, "stmts": [self.stmt(2, softs) for _ in range(rnd.randint(1, 3))]}
                            for i in range(nb)]
+            for f in c["fields"]:
+                if f["kind"] == "olist" and rnd.random() < 0.7:
+                    c["blocks"][0]["stmts"].append(self.foreach_objs(sc, c, f))
         self.rl_names = all_rl
 
     # ---- expressions
@@ -444,7 +523,9 @@ class Gen(object):
         if depth <= 0 or r < 0.45:
             if r < 0.33 or depth <= 0 and r < 0.7 or vsc_root and not (0.33 <= r < 0.40):
                 return ["f", path], f
-            if r < 0.40 and f["kind"] == "scalar" and f["w"] >= 2:
+            # (a bit / part select of a field reached through a list element is not supported by the library: expr.__getitem__
+            # with a single index always builds an array subscript - not generated)
+            if r < 0.40 and f["kind"] == "scalar" and f["w"] >= 2 and not any(isinstance(x, int) for x in path):
                 hi = rnd.randrange(f["w"])
                 lo = rnd.randint(0, hi)
                 if rnd.random() < 0.25:
@@ -609,6 +690,26 @@ class Gen(object):
         sc["root_cls"] = root["name"]
         return sc
 
+    def foreach_objs(self, sc, c, lf):
+        """with vsc.foreach(self.l, idx=True, it=True): relations over the element's fields, the index and the container's fields"""
+        rnd = self.rnd
+        efs = [f for f in all_fields(sc, lf["cls"]) if f["kind"] == "scalar"]
+        own = [(p, f) for p, f in self.fs if len(p) == 1 and f["kind"] == "scalar"]
+        body = []
+        for _ in range(rnd.randint(1, 2)):
+            ef = rnd.choice(efs)
+            r = rnd.random()
+            if r < 0.4:
+                rhs = self.lit_for(ef)
+            elif r < 0.6:
+                rhs = ["idxvar"]
+            elif r < 0.8 and own:
+                rhs = ["f", list(rnd.choice(own)[0])]
+            else:
+                rhs = ["itf", [rnd.choice(efs)["name"]]]
+            body.append(["expr", ["bin", rnd.choice(["Le", "Ne", "Lt", "Ge", "Eq"]), ["itf", [ef["name"]]], rhs]])
+        return ["foreach", [lf["name"]], body]
+
     def rl_item(self, f):
         rnd = self.rnd
         lo, hi = type_range(f["w"], f["sg"])
@@ -700,6 +801,8 @@ def case_literal(sc, opi, res, lits):
     # what pre_randomize assigns is what the solver must see (and what non-random fields must keep)
     before = lits.values(apply_pre_hooks(sc, lits, res["before"], res["hooks"])[0]) if hasattr(lits, "ids") else lits.values(res["before"])
     after = lits.values(res["values"])
+    if hasattr(lits, "ids"):
+        lits.before_by_path = {p: before[i] for p, i in lits.ids.items()}
     # 3 = ZeroDivisionError: a constant sub-expression divides by zero, which the specification leaves undefined
     outcome = 0 if res["outcome"] == "ok" else (1 if res["outcome"] == "SolveFailure" else
                                                 (3 if res["outcome"] == "exc:ZeroDivisionError" or "Max size for array" in (res.get("err") or "") else 2))
